@@ -310,6 +310,21 @@ def catalogue(cat: Cat, rng: random.Random, tier: str):
     add(("aliasstr", "ASU", "UData")); add(("aliasstr", "ASI", "int")); add(("aliasstr", "ASL", "list[int]"))
     add(("newtype", nm("N"), ("aliasstr", "ASU", "UData")))
     add(("final", ("newtype", nm("N"), C("int")))); add(("classvar", ("alias", nm("A"), C("int"))))
+    # qualifiers over a Literal, direct and through NewType / alias chains (should_unwrap / unwrap)
+    for lit in (("literal", [["b", True]]), ("literal", [["i", 1], ["s", "a"]]), ("literal", [["n"], ["i", 1]])):
+        for q in ("classvar", "final"):
+            add((q, lit))
+            add((q, ("newtype", nm("N"), lit)))
+            add((q, ("alias", nm("A"), lit)))
+            add((q, ("alias", nm("A"), ("newtype", nm("N"), lit))))
+            add(("newtype", nm("N"), (q, lit)))
+            add(("alias", nm("A"), (q, lit)))
+            add(("newtype", nm("N"), ("newtype", nm("N"), (q, lit))))
+    for q in ("classvar", "final"):
+        for inner in (C("int"), li, ("union", "O", [C("int"), NONE_T])):
+            add(("newtype", nm("N"), (q, inner)))
+            add(("alias", nm("A"), (q, inner)))
+            add(("newtype", nm("N"), ("alias", nm("A"), (q, inner))))
     add(("final", ("final", C("int")))) if False else None
     for r in (("fref", "UData", None), ("fref", "UData", MODNAME), ("fref", "Literal[1]", None), ("fref", "a.b.C", None),
               ("fref", "list[int]", None), ("fref", "typing.List", None)):
@@ -783,5 +798,7 @@ def matches(entry, failure):
         return False
     regs = set(failure.get("regions", [])) | set(failure.get("extra_regions", []))
     if "region" in m and m["region"] not in regs:
+        return False
+    if "regions" in m and not (set(m["regions"]) & regs):
         return False
     return True
